@@ -601,7 +601,7 @@ func genScenarios(o *common.Opts, rng *rand.Rand) []Scenario {
 		cap := []int{1, 1, 2, 3, 4, 16, 10000}[rng.Intn(7)]
 		scs = append(scs, Scenario{Kind: "random", Seed: rng.Int63(), Cap: cap, Goroutines: g, PerG: per,
 			Writers: 1 + rng.Intn(3), FlushAfter: rng.Intn(g*per + 1), Linger: []int{0, 0, 3, 20, 100}[rng.Intn(5)],
-			SlowWrite: []int{0, 0, 2, 10}[rng.Intn(4)], MaxLen: 24, Model: true})
+			SlowWrite: []int{0, 0, 2, 10}[rng.Intn(4)], MaxLen: []int{24, 24, 24, 600}[rng.Intn(4)], Model: true})
 	}
 	// random, many goroutines: oracle only
 	for i := 0; i < 30*mul; i++ {
